@@ -31,6 +31,7 @@ Definition dispatch_dos (op : bytes) (args : list arg) : option obs :=
     match args with
     | [AN ts] => Some (oopt dt_obs (try_from_unix ts))
     | [AN ts; AN east; AN west] => Some (oopt dt_obs (try_from_unix (ts + east - west)))    (* local calendar fields *)
+    | [AN ts; AN east; AN west; AN _] => Some (oopt dt_obs (try_from_unix (ts + east - west)))   (* + nanoseconds: dropped *)
     | _ => None end
   else None.
 
@@ -54,6 +55,7 @@ Definition dispatch_text (op : bytes) (args : list arg) : option obs :=
   if is_op op "text" then
     match args with
     | [AN flag; AB raw] => let f := N.odd flag in Some (OL [OB (decode_text f raw); OB raw])     (* other flag bits: >> 1 *)
+    | [AN flag; AB raw; AB cm] => let f := N.odd flag in Some (OL [OB (decode_text f raw); OB raw; OB (decode_text f cm)])   (* own entry comment *)
     | _ => None end
   else if is_op op "wname" then
     match args with
